@@ -75,8 +75,19 @@ def solve_one(job):
     """Each query runs in its own solver process(es) under a hard wall-clock and memory limit.
     Floating-point queries race cvc5 against z3 (cvc5's FP bit-blaster is usually an order of magnitude faster);
     all others go to z3 first and cvc5 takes z3's unknowns."""
-    idx, smt2, timeout_ms, use_cvc5 = job
+    idx, smt2, timeout_ms, use_cvc5, inst = job
     tsec = max(1, int(timeout_ms / 1000))
+    if inst is not None:
+        # portfolio member 1: hypotheses' quantifiers replaced by ground instances (sound for unsat only)
+        with tempfile.NamedTemporaryFile("w", suffix=".smt2", delete=False) as f:
+            f.write(inst if "(set-logic" in inst else "(set-logic ALL)\n" + inst)
+            ipath = f.name
+        try:
+            r, secs, backend, reason = _race([("z3-5.1.0", [Z3_BIN, "-T:%d" % min(tsec, 20), "-memory:%d" % MEM_MB, ipath])], min(tsec, 20))
+        finally:
+            os.unlink(ipath)
+        if r == "unsat":
+            return idx, r, secs, backend + "(ground-instantiated)", ""
     with tempfile.NamedTemporaryFile("w", suffix=".smt2", delete=False) as f:
         f.write(smt2 if "(set-logic" in smt2 else "(set-logic ALL)\n" + smt2)
         path = f.name
@@ -110,7 +121,7 @@ def discharge(obligations, timeout_ms=30000, use_cvc5=True, jobs=None):
         if z3.is_true(g):
             ob.result, ob.seconds, ob.backend = "unsat", 0.0, "simplifier"
             continue
-        work.append((i, obligation_smt2(ob), timeout_ms, use_cvc5))
+        work.append((i, obligation_smt2(ob), timeout_ms, use_cvc5, obligation_inst_smt2(ob)))
     if not work:
         return
     if len(work) == 1 or jobs == 1:
@@ -180,6 +191,23 @@ def _cvc5_scalar_values(fs, timeout_s):
     # map ackermann constants back to the select terms they stand for
     back = [(c, sel) for sel, c in subs]
     return [z3.substitute(e, *back) if back else e for e in parsed]
+
+
+def obligation_inst_smt2(ob):
+    fs = list(ob.pc) + [z3.Not(ob.goal)]
+    if not any(z3.is_quantifier(e) for e in _walk(fs)):
+        return None
+    try:
+        inst = instantiate_quantifiers(fs)
+    except z3.Z3Exception:
+        return None
+    if inst is None:
+        return None
+    inst = ackermannize(inst)
+    s = z3.Solver()
+    for f in inst:
+        s.add(f)
+    return s.to_smt2()
 
 
 def get_model(ob, timeout_ms=30000, extra=()):
@@ -286,4 +314,85 @@ def ackermannize(formulas, rounds=4, subs_out=None):
             subs_out.extend(subs)
         fs = [z3.substitute(f, *subs) for f in fs] + [z3.substitute(x, *subs) for x in extra]
         fs = [z3.simplify(f) for f in fs]
+    return fs
+
+
+# ------------------------------------------------------------------ manual quantifier instantiation (portfolio member)
+def _ground_int_terms(fs):
+    """Ground integer terms used as array indices or as arguments of uninterpreted functions."""
+    terms = {}
+    cache = {}
+    for e in _walk(fs):
+        if z3.is_quantifier(e) or not z3.is_app(e):
+            continue
+        cands = []
+        if z3.is_select(e):
+            cands = [e.arg(1)]
+        elif z3.is_store(e):
+            cands = [e.arg(1)]
+        elif e.decl().kind() == z3.Z3_OP_UNINTERPRETED and e.num_args() > 0:
+            cands = e.children()
+        if z3.is_const(e) and e.sort() == z3.IntSort() and e.decl().kind() == z3.Z3_OP_UNINTERPRETED:
+            # integer constants and their negations (witnesses such as k = -q for congruences)
+            terms[e.get_id()] = e
+            neg = z3.simplify(-e)
+            terms[neg.get_id()] = neg
+        for c in cands:
+            if c.sort() == z3.IntSort() and not _contains_var(c, cache):
+                terms[c.get_id()] = c
+    return list(terms.values())
+
+
+def instantiate_quantifiers(formulas, rounds=2, max_inst=600):
+    """NNF + skolemisation (z3 tactic), then every remaining universal quantifier over integers is replaced by its
+    instances at the ground index terms of the query.  The result is WEAKER than the input (hypotheses dropped), so
+    ``unsat`` of the result proves the original obligation; any other answer is inconclusive."""
+    g = z3.Goal()
+    for f in formulas:
+        g.add(f)
+    try:
+        out = z3.Then(z3.Tactic("simplify"), z3.Tactic("nnf"))(g)
+    except z3.Z3Exception:
+        return None
+    if len(out) != 1:
+        return None
+    fs = []
+    for f in out[0]:
+        if z3.is_and(f):
+            fs.extend(f.children())
+        else:
+            fs.append(f)
+    if not any(z3.is_quantifier(f) for f in _walk(fs)):
+        return None
+    for _ in range(rounds):
+        ground = [f for f in fs if not z3.is_quantifier(f)]
+        quants = [f for f in fs if z3.is_quantifier(f)]
+        terms = _ground_int_terms(fs)
+        new = []
+        for q in quants:
+            if not q.is_forall():
+                return None
+            n = q.num_vars()
+            if any(q.var_sort(i) != z3.IntSort() for i in range(n)):
+                return None
+            import itertools
+            combos = list(itertools.islice(itertools.product(terms, repeat=n), max_inst))
+            for combo in combos:
+                # de Bruijn: variable 0 is the LAST bound variable
+                inst = z3.substitute_vars(q.body(), *reversed(combo))
+                new.append(inst)
+        flat = []
+        for f in new:
+            f = z3.simplify(f)
+            if z3.is_true(f):
+                continue
+            flat.append(f)
+        # nested quantifiers inside instances are kept for the next round
+        fs = ground + flat
+        if _ == 0:
+            fs = fs + quants  # second round sees terms created by the first
+            continue
+    fs = [f for f in fs if not z3.is_quantifier(f)]
+    if any(z3.is_quantifier(e) for e in _walk(fs)):
+        return None
     return fs
